@@ -87,8 +87,15 @@ type c10Rule struct {
 }
 
 func TestVfC10Rules(t *testing.T) {
-	st := vfkit.Stats("TestVfC10Rules", "generated configurations (1-3 upstreams of which some answer SERVFAIL / REFUSED, 0-3 domain sets with shared files incl. empty sets, 0-6 rules with optional domain / reverse / reject 0-15 / forward / no action) each run by the real binary, x 25 queries (names in/out of the sets, mixed case, several types and classes); oracle: reference first-match model -> client rcode (a failing upstream's own rcode) and answering upstream tag, the selected upstream and no other receives exactly one lower-cased RD=1 query, reject/REFUSED decisions cause no upstream traffic; non-trivial = deciding rule is not the first, or reverse decides, or a reject precedes a forward that would also match")
+	st := vfkit.Stats("TestVfC10Rules", "generated configurations (1-3 upstreams of which some answer SERVFAIL / REFUSED, 0-3 domain sets with shared files incl. empty sets, 0-6 rules with optional domain / reverse / reject 0-15 / forward / no action) each run by the real binary (cache off / memory / a second-level store shared by all configurations of the run), x 25 queries (names in/out of the sets, mixed case, several types and classes); oracle: reference first-match model -> client rcode (a failing upstream's own rcode) and answering upstream tag, the selected upstream and no other receives exactly one lower-cased RD=1 query, reject/REFUSED decisions cause no upstream traffic; non-trivial = deciding rule is not the first, or reverse decides, or a reject precedes a forward that would also match")
 	defer vfkit.Flush()
+	// One second-level store (kit/fakeredis.go) for the whole run: configurations that use it inherit what earlier
+	// configurations - with other rule lists - left there. Names come from a small label set, so they meet again.
+	store, err := vfkit.StartFakeRedis("127.0.0.1")
+	if err != nil {
+		t.Fatal(err)
+	}
+	defer store.Close()
 	rapid.Check(t, func(t *rapid.T) {
 		block := NextIPBlock()
 		defer FreeIPBlock(block)
@@ -188,12 +195,18 @@ func TestVfC10Rules(t *testing.T) {
 			}
 			cfg.Rules = append(cfg.Rules, yr)
 		}
-		cacheOn := rapid.IntRange(0, 3).Draw(t, "cacheOn") == 0
-		if cacheOn {
+		cacheMode := rapid.SampledFrom([]string{"off", "off", "off", "off", "memory", "memory", "shared-store", "shared-store"}).Draw(t, "cache")
+		switch cacheMode {
+		case "memory":
 			// with a cache a forward decision still means exactly one upstream query for a question asked
 			// for the first time (every question is asked once per configuration)
 			cfg.Cache = &CacheCfg{MemSize: 1 << 20}
+		case "shared-store":
+			// the store outlives the configuration: a forward decision may be served from what another configuration
+			// fetched ("unless its cache already holds the answer"), every other decision is the rule list's alone
+			cfg.Cache = &CacheCfg{Redis: store.URL()}
 		}
+		pingsBefore := store.Pings.Load()
 		p, err := StartProxy(cfg.YAML(), files, ProxyOpts{})
 		if err != nil {
 			t.Fatalf("%v", err)
@@ -202,6 +215,13 @@ func TestVfC10Rules(t *testing.T) {
 		if p.Exited() {
 			t.Fatalf("a valid configuration was rejected (exit %d):\n%s\n%s", p.ExitCode, cfg.YAML(), tail(p.Stderr(), 1500))
 		}
+		if cacheMode == "shared-store" {
+			for until := time.Now().Add(4 * time.Second); store.Pings.Load() < pingsBefore+1 && time.Now().Before(until); {
+				time.Sleep(20 * time.Millisecond) // the proxy uses the store after its first successful PING
+			}
+			time.Sleep(20 * time.Millisecond)
+		}
+		storeHitsBefore := store.Hits.Load()
 		a := NewAsker(pip, "")
 		defer a.Close()
 		nontrivial := false
@@ -306,6 +326,33 @@ func TestVfC10Rules(t *testing.T) {
 						t.Fatalf("upstream %s was contacted for a query that must be answered locally; %s", ups[i].Tag, desc)
 					}
 				}
+			case cacheMode == "shared-store":
+				// A forward decision under a store that other configurations have filled: the answer may be a stored one
+				// ("unless its cache already holds the answer"), without an upstream query or - when the stored entry is in
+				// its refresh window - with one background query to the selected upstream. What stays the rule list's alone:
+				// no other upstream is ever asked, the selected one at most once, and with the right question.
+				for i, u := range ups {
+					if u.Tag != decision && got[i] != 0 {
+						t.Fatalf("upstream %s received %d queries, the rule selects %s; %s", u.Tag, got[i], decision, desc)
+					}
+					if u.Tag == decision {
+						if got[i] > 1 {
+							t.Fatalf("the selected upstream %s received %d queries for one client query; %s", u.Tag, got[i], desc)
+						}
+						if got[i] == 1 {
+							qs := u.Queries()
+							uq := qs[len(qs)-1].Msg
+							if uq.Err != nil || len(uq.Q) != 1 || !uq.Q[0].Name.Equal(wn.Lower()) || uq.Q[0].Type != qtype || uq.Q[0].Class != qclass || !uq.Has(vfkit.BitRD) || uq.Has(vfkit.BitQR) || uq.Opcode() != 0 {
+								t.Fatalf("upstream query is not the lower-cased question with RD=1: %s; %s", uq.Msg.String(), desc)
+							}
+						} else {
+							st.Class("forward-served-from-the-shared-store", 1)
+						}
+					}
+				}
+				if _, _, _, ok := ParseKeyed(r); !ok && len(r.An) > 0 {
+					t.Fatalf("forward decision, and the response is neither an upstream answer nor a stored one: %s; %s", r.Msg.String(), desc)
+				}
 			default:
 				_, tag, _, ok := ParseKeyed(r)
 				mode := "ok"
@@ -346,7 +393,10 @@ func TestVfC10Rules(t *testing.T) {
 		if c := p.Crashed(); c != "" {
 			t.Fatalf("proxy crashed: %s", c)
 		}
-		st.Case(vfkit.Fingerprint(cfg.YAML(), fmt.Sprint(files)), nontrivial && nRules >= 2, []string{fmt.Sprintf("rules=%d", nRules)}, func() any {
+		if cacheMode == "shared-store" {
+			st.Class("store-hits", int(store.Hits.Load()-storeHitsBefore))
+		}
+		st.Case(vfkit.Fingerprint(cfg.YAML(), fmt.Sprint(files)), nontrivial && nRules >= 2, []string{fmt.Sprintf("rules=%d", nRules), "cache=" + cacheMode}, func() any {
 			return map[string]any{"config": cfg.YAML(), "files": files}
 		})
 	})
